@@ -741,6 +741,25 @@ def r16_pairing(idx, r):
     pairing_rule(idx, r, ["armi.reactor.composites", "armi.reactor.blocks", "armi.reactor.components", "armi.utils.densityTools"], 100)
 
 
+def r18_nothing_cached_above_the_leaves_of_change(idx, r):
+    """Composition setters work on components (and blocks); nothing tells an assembly, a core - or even the block - that a child's nuclide
+    vector changed, and clearCache only travels downwards.  A method defined on ArmiObject or Composite - inherited by every level - that
+    keeps its answer in the composite cache (`_setCache`) therefore serves a stale composition after the next setNumberDensity below it."""
+    n = 0
+    for cn in (AO, "armi.reactor.composites.Composite"):
+        c = idx.cls(cn)
+        for name, f in sorted(c.methods.items()):
+            n += 1
+            fills = [x for x in iter_calls(f.node) if dotted(x.func) == "self._setCache"] + [s_.stmt for s_ in iter_stores(f.node) if s_.kind == "subscript" and s_.chain == "self.cached"]
+            if name in ("_setCache", "_getCached", "clearCache", "backUp", "restoreBackup", "__setstate__", "__init__"):
+                continue
+            r.require(not fills, f"{c.name}.{name}:nothing-cached-at-every-level", f, node=fills[0] if fills else None,
+                      msg=f"{c.name}.{name} keeps its answer in the composite cache; it is inherited by blocks, assemblies and cores, none of which is told when a component below changes its nuclides: "
+                          "the next query returns the composition from before the change (e.g. a nuclide added to a component stays invisible at block level)")
+    if n < 100:
+        raise AnchorMissing("methods of ArmiObject / Composite")
+
+
 def run(idx, chk):
     chk.explanation = (
         "C02: 24 conversion/accounting functions are typed in the free abelian group of physical units (cm, g, mol, barn, atom) plus a role generator "
@@ -782,3 +801,5 @@ def run(idx, chk):
                  necessary="the accessors compute with the options the caller gave")
     chk.run_rule("R02.17", "mass-fraction sums run over nuclides present; enrichment reader and writer share the baseline; only the 0/120-degree lines cut a block", lambda r: r17_present_nuclides_siblings_lines(idx, r), floor=5,
                  necessary="a held-constant element keeps its mass fraction; an enrichment that was set reads back; core mass is the sum of block masses with and without edge assemblies")
+    chk.run_rule("R02.18", "no method of ArmiObject/Composite (inherited by every level) fills the composite cache", lambda r: r18_nothing_cached_above_the_leaves_of_change(idx, r), floor=100,
+                 necessary="block-level densities are the volume-weighted means of the children's present densities")
